@@ -632,7 +632,9 @@ func (kcp *KCP) Input(data []byte, pktType PacketType, ackNoDelay bool) int {
 
 		kcp.debugLog(IKCP_LOG_INPUT, "conv", conv, "cmd", cmd, "frg", frg, "wnd", wnd, "ts", ts, "sn", sn, "una", una, "len", length, "datalen", len(data))
 
-		if len(data) < int(length) {
+		// a payload larger than a pool buffer cannot come from a peer of this
+		// package (mss <= mtuLimit) and could not be stored
+		if length > mtuLimit || len(data) < int(length) {
 			return -2
 		}
 
